@@ -106,6 +106,29 @@ func Compare(o *plat.Outcome, r ref.Outcome) (judged bool, ok bool, why string) 
 	if !ClassMatches(o.Class, r.Class) {
 		return true, false, fmt.Sprintf("result %s (%s), expected %s (%s)", o.Class, trunc(o.ErrText+o.GoPanic), r.Class, r.Msg)
 	}
+	if r.Class == "tests-failed" && len(r.Fails) > 0 {
+		// the failed tests are reported as "<position>: failed test: <what>", one per failure, in order
+		parts := strings.Split(o.ErrText, "failed test: ")[1:]
+		for i := 0; i+1 < len(parts); i++ {
+			if k := strings.LastIndex(parts[i], "\nline "); k >= 0 {
+				parts[i] = parts[i][:k]
+			}
+		}
+		ambiguous := false
+		for _, f := range r.Fails {
+			ambiguous = ambiguous || strings.Contains(f, "failed test: ")
+		}
+		if !ambiguous {
+			if len(parts) != len(r.Fails) {
+				return true, false, fmt.Sprintf("%d failed tests reported (%q), expected %d: %q", len(parts), trunc(o.ErrText), len(r.Fails), r.Fails)
+			}
+			for i := range parts {
+				if !SameText(parts[i], r.Fails[i]) {
+					return true, false, fmt.Sprintf("failed test %d reported as %q, expected %q", i, trunc(parts[i]), trunc(r.Fails[i]))
+				}
+			}
+		}
+	}
 	if r.Class == "panic:user" && !strings.HasSuffix(o.ErrText, ": "+r.Msg) {
 		return true, false, fmt.Sprintf("panic message %q, expected suffix %q", o.ErrText, r.Msg)
 	}
